@@ -12,6 +12,14 @@ Inductive case :=
    streams and decoded while the receivers read late / in an arbitrary order; impl = for every
    channel of chans (all channels of ops) what it had received when everything was delivered *)
 | Fan (ops : list op) (msgs : list msg) (chans : list N) (impl : list (list msg))
+(* several goroutines, each running its own program ths[i] on ONE Libp2pCommunication (held by value
+   in interfaces, as the tss code holds it): impl = per thread, per operation, the lookups of the
+   operation's (session, type) made right after it (GetSubscribers; for a delivery also the channels
+   that received the message); final = the table per pair of U when all threads had finished;
+   crashed = the process running the case died (Go runtime fatal error); races = data race reports
+   of the race detector that involve the repo's comm packages (0 when run without the detector) *)
+| Conc (ths : list (list op)) (impl : list (list (list (list N)))) (U : univ) (final : list (list N))
+       (crashed : bool) (races : nat)
 (* SubscriptionID(Sprintf("%s-%d-%d", s, t, u)).Unwrap() *)
 | Unw (s : string) (t u : N) (impl : option (string * N * string))
 (* Unwrap of an arbitrary string *)
@@ -48,6 +56,11 @@ Definition agree (c : case) : bool :=
   match c with
   | Ops U ops impl => obsl_eqb (trace_c unwrap U c_init ops) impl
   | Fan ops msgs chans impl => fan_ok (recv_c (fst (run_c unwrap c_init ops)) msgs) chans impl
+  | Conc ths impl U final crashed races =>
+      (* under any schedule the model of the code (Model.C12 sched) shows each thread exactly what
+         the judge demands of a lookup (theorems C12_conc_...): nothing of a concurrent run is compared beyond that;
+         the model of the table with identifiers is compared in the Ops and Fan cases *)
+      true
   | Unw s t u impl => res_eqb (unwrap (sub_id s t u)) impl
   | Raw id impl => res_eqb (unwrap id) impl
   end.
@@ -60,6 +73,8 @@ Definition judge (c : case) : bool :=
   | Ops U ops impl => if types_declared ops then judge_ops U ops impl else true
   | Fan ops msgs chans impl =>
       if types_declared ops && msgs_declared msgs then judge_fan ops msgs chans impl else true
+  | Conc ths impl U final crashed races =>
+      if forallb types_declared ths then judge_conc_fast ths impl U final crashed races else true
   | Unw s t u impl => unwrap_ok s t u impl
   | Raw _ _ => true
   end.
@@ -75,6 +90,9 @@ Definition tag (c : case) : N :=
                    + (if wf_ops ops then 0 else 4)
   | Fan ops msgs _ _ => 16 + (if has_hy_session ops then 1 else 0) + (if has_unsub ops then 2 else 0)
                         + (if wf_ops ops then 0 else 4)
+  | Conc ths _ _ _ crashed races =>
+      32 + (if existsb has_hy_session ths then 1 else 0) + (if existsb has_unsub ths then 2 else 0)
+      + (if crashed then 4 else 0) + (match races with O => 0 | _ => 8 end)
   | Unw s t u _ => match unwrap (sub_id s t u) with Some _ => 8 | None => 9 end
   | Raw id _ => match unwrap id with Some _ => 10 | None => 11 end
   end.
